@@ -60,7 +60,7 @@ fn dump(m: &Model) -> String {
     parts.join("_")
 }
 
-fn cell_at(m: &Model, r: i32, c: i32) -> Option<&Cell> {
+fn cell_at<'a>(m: &'a Model<'_>, r: i32, c: i32) -> Option<&'a Cell> {
     m.workbook.worksheets[0].sheet_data.get(&r)?.get(&c)
 }
 
